@@ -290,30 +290,31 @@ def expectedRunLoop : List String :=
   ["v1 = p1.ctx.IO().In()",
    "v2 = p1.ctx.IO().Out()",
    "v3 = make(chan []string, 1)",
-   "v4 = make(chan struct{}, 1)",
+   "v4 = make(chan error, 1)",
+   "v5 = make(chan struct{}, 1)",
    "go func()",
    "func()",
    "for",
    "select",
    "case <-p1.ctx.Scope().Done()",
    "return",
-   "case _, v5 = <-v4",
-   "if !v5 => return",
+   "case _, v6 = <-v5",
+   "if !v6 => return",
    "for",
-   "if v6, v7, err2 = varutil.ReadArguments(v1); err2 != nil",
-   "p1.ctx.Scope().AppendError(err2)",
+   "if v7, v8, err2 = varutil.ReadArguments(v1); err2 != nil",
+   "v4 <- err2",
    "return",
    "end",
-   "if len(v6) != 0",
+   "if len(v7) != 0",
    "break",
    "end",
-   "if v7",
+   "if v8",
    "close(v3)",
    "return",
    "end",
    "end",
-   "v3 <- v6",
-   "if v7",
+   "v3 <- v7",
+   "if v8",
    "close(v3)",
    "return",
    "end",
@@ -322,16 +323,19 @@ def expectedRunLoop : List String :=
    "end func",
    "defer func()",
    "func()",
-   "close(v4)",
+   "close(v5)",
    "end func",
    "for",
-   "v4 <- struct{}{}",
+   "v5 <- struct{}{}",
    "select",
    "case <-p1.ctx.Scope().Done()",
    "return",
-   "case v8, v9 = <-v3",
-   "if !v9 => return",
-   "if err = RunCommand(p1, v8); err != nil",
+   "case err = <-v4",
+   "p1.ctx.Scope().AppendError(err)",
+   "return",
+   "case v9, v10 = <-v3",
+   "if !v10 => return",
+   "if err = RunCommand(p1, v9); err != nil",
    "p1.ctx.Scope().AppendError(err)",
    "return",
    "end",
@@ -341,7 +345,9 @@ def expectedRunLoop : List String :=
 /-- `termexec.RunLoop(rctx, prompt)`, whole body — model: `.run i → .inCmd i → .afterCmd i → .run (i+1)`, `stepStop`,
 theorem `commands_in_order_stop_at_first_failure`:
   * the READER goroutine hands over ONE command per token on `next`, read from the one input stream in order
-    (`argChan` has capacity 1; it is closed at end of input), and stops when the scope is done;
+    (`argChan` has capacity 1; it is closed at end of input), and stops when the scope is done; a READ error (the
+    text ends inside a quoted argument …) is handed to the main loop (`errChan`), which appends it to the scope and
+    returns — the reader itself never touches the scope, which may be closed by then (`Cmd.fail`);
   * the MAIN loop: one token, then a `select` between the scope's `Done()` (→ return: `Label.stop`, a free choice
     once the context has failed) and the next command; end of input → return (`.closing true`);
     `RunCommand(rctx, args)` runs the command to its end BEFORE the next token is given, and a FAILING command's
@@ -352,11 +358,11 @@ theorem tie_runloop_stops_at_first_failure : runLoop = expectedRunLoop := by rfl
 /-- the main loop's failing branch, as a separate statement: the `RunCommand` line is followed by
 `AppendError`, `return`; both loops test `Done()`; there is exactly one call of `RunCommand`. -/
 theorem tie_runloop_failure_branch :
-    (runLoop.drop (pos "if err = RunCommand(p1, v8); err != nil" runLoop)).take 4 =
-      ["if err = RunCommand(p1, v8); err != nil", "p1.ctx.Scope().AppendError(err)", "return", "end"]
+    (runLoop.drop (pos "if err = RunCommand(p1, v9); err != nil" runLoop)).take 4 =
+      ["if err = RunCommand(p1, v9); err != nil", "p1.ctx.Scope().AppendError(err)", "return", "end"]
     ∧ (runLoop.filter (· == "case <-p1.ctx.Scope().Done()")).length = 2
-    ∧ (runLoop.filter (· == "if err = RunCommand(p1, v8); err != nil")).length = 1
-    ∧ pos "v4 <- struct{}{}" runLoop < pos "case v8, v9 = <-v3" runLoop := by
+    ∧ (runLoop.filter (· == "if err = RunCommand(p1, v9); err != nil")).length = 1
+    ∧ pos "v5 <- struct{}{}" runLoop < pos "case v9, v10 = <-v3" runLoop := by
   decide
 
 /-- `termexec.RunCommand(rctx, args)`, filtered to the command scope — model: `.afterCmd i` ("RunCommand closes
